@@ -157,6 +157,13 @@ func (c *Compactor) Compact(ctx context.Context, dstLevel int) (*ltx.FileInfo, e
 
 	pr, pw := io.Pipe()
 	go func() {
+		// The ltx decoder can panic on truncated input; report it as an error
+		// instead of crashing the whole process from this goroutine.
+		defer func() {
+			if v := recover(); v != nil {
+				_ = pw.CloseWithError(fmt.Errorf("ltx compactor: invalid ltx file: %v", v))
+			}
+		}()
 		comp, err := ltx.NewCompactor(pw, rdrs)
 		if err != nil {
 			_ = pw.CloseWithError(fmt.Errorf("new ltx compactor: %w", err))
